@@ -70,6 +70,12 @@ structure SliInfo where
   buyers : List Aff
   active : Aff → Option Rat
 
+/-- State of the forward scan before its first row: the post-sale all-affiliate balance, the
+    seller's post-sale balance, nothing acquired yet. -/
+def initScan (t : Tracker) (seller : Aff) (sold : Rat) : Scan :=
+  { adj := fun _ => 1, allEop := t.latestPostAll - sold, acquired := 0, buyers := [],
+    active := upd (fun _ => none) seller (some (t.bal seller - sold)) }
+
 /-- `get_superficial_loss_info`; `past` is the processed rows, most recent first. -/
 def sflInfo (t : Tracker) (seller : Aff) (settle : Int) (sold : Rat)
     (past future : List Tx) : Except Failure (Option SliInfo) :=
@@ -79,9 +85,7 @@ def sflInfo (t : Tracker) (seller : Aff) (settle : Int) (sold : Rat)
     let sellerAfter := t.bal seller - sold
     if sellerAfter < 0 then .error (.err .lookSellerNeg)
     else
-      let s0 : Scan := { adj := fun _ => 1, allEop := allAfter, acquired := 0, buyers := [],
-                         active := upd (fun _ => none) seller (some sellerAfter) }
-      match scanFwd t (settle + Gen.sflWindowAfterDays) s0 future with
+      match scanFwd t (settle + Gen.sflWindowAfterDays) (initScan t seller sold) future with
       | .error f => .error f
       | .ok s1 =>
         if ¬ (0 < s1.allEop) then .ok none
